@@ -43,7 +43,7 @@ func outsideFiles(top, root string) []string {
 		if p == top || p == root || inside(root, p) {
 			return nil
 		}
-		if p == filepath.Join(top, "canary") || p == filepath.Join(top, "canary", "keep") {
+		if p == filepath.Join(top, "canary") || p == filepath.Join(top, "canary", "keep") || p == filepath.Join(top, "root2") || p == filepath.Join(top, "root2", "keep") {
 			return nil
 		}
 		out = append(out, p)
@@ -53,7 +53,9 @@ func outsideFiles(top, root string) []string {
 }
 
 func keysPass(run *ev.Run, maxLen int) (cases, nontrivial int, samples []any) {
-	atoms := []string{"a", "/", "..", ".", "\x00", "\\", "ä", " ", "*"}
+	// "root2" names a SIBLING of the storage root whose name extends the root's name (a string-prefix
+	// containment test would accept it); ".\x00." becomes ".." once NUL bytes are stripped
+	atoms := []string{"a", "/", "..", ".", "\x00", "\\", "ä", " ", "*", ".\x00.", "root2"}
 	var keys []string
 	var rec func(cur string, n int)
 	rec = func(cur string, n int) {
@@ -81,6 +83,8 @@ func keysPass(run *ev.Run, maxLen int) (cases, nontrivial int, samples []any) {
 			os.RemoveAll(top)
 			os.MkdirAll(filepath.Join(top, "canary"), 0o700)
 			os.WriteFile(filepath.Join(top, "canary", "keep"), []byte("canary"), 0o600)
+			os.MkdirAll(filepath.Join(top, "root2"), 0o700)
+			os.WriteFile(filepath.Join(top, "root2", "keep"), []byte("canary"), 0o600)
 		}
 		if i%2000 == 0 && run.TimeUp() {
 			run.Coverage["exhaustive"] = false
@@ -107,6 +111,13 @@ func keysPass(run *ev.Run, maxLen int) (cases, nontrivial int, samples []any) {
 			os.RemoveAll(top)
 			os.MkdirAll(filepath.Join(top, "canary"), 0o700)
 			os.WriteFile(filepath.Join(top, "canary", "keep"), []byte("canary"), 0o600)
+			os.MkdirAll(filepath.Join(top, "root2"), 0o700)
+			os.WriteFile(filepath.Join(top, "root2", "keep"), []byte("canary"), 0o600)
+		}
+		if b, err := os.ReadFile(filepath.Join(top, "root2", "keep")); err != nil || string(b) != "canary" {
+			run.Violate(sig("sibling-touched"), "a sibling directory whose name extends the root's name was modified", map[string]any{"key": k})
+			os.MkdirAll(filepath.Join(top, "root2"), 0o700)
+			os.WriteFile(filepath.Join(top, "root2", "keep"), []byte("canary"), 0o600)
 		}
 		if b, err := os.ReadFile(filepath.Join(top, "canary", "keep")); err != nil || string(b) != "canary" {
 			run.Violate(sig("canary-touched"), "a sibling of the storage root was modified", map[string]any{"key": k})
@@ -309,7 +320,7 @@ func main() {
 	fmt.Printf("atomicity: %d crash states\n", ac)
 	run.Coverage["evaluations"] = kc + ac
 	run.Coverage["distinct_nontrivial"] = kn + an
-	run.Coverage["rule"] = fmt.Sprintf("keys: every string of <=%d tokens over {a,/,..,.,NUL,backslash,ä,space,*} plus its absolute and trailing-slash forms and 10 hand-written traversal shapes; non-trivial = contains a traversal, NUL, absolute or backslash token. atomicity: Write/WriteReader/AppendReader x sizes {0,1,5,70000} x reader chunkings x pre-states {absent, old final, stale .part, resumable .part}; one crash state per mutating file-system call of the operation and per torn length of each write (all lengths <=64 bytes, else 1, half, len-1); each crash state is distinct and non-trivial (the process died mid-operation)", maxLen)
+	run.Coverage["rule"] = fmt.Sprintf("keys: every string of <=%d tokens over {a,/,..,.,NUL,backslash,ä,space,*,dot-NUL-dot,the name of a sibling directory that extends the root's name} plus its absolute and trailing-slash forms and 10 hand-written traversal shapes; non-trivial = contains a traversal, NUL, absolute or backslash token. atomicity: Write/WriteReader/AppendReader x sizes {0,1,5,70000} x reader chunkings x pre-states {absent, old final, stale .part, resumable .part}; one crash state per mutating file-system call of the operation and per torn length of each write (all lengths <=64 bytes, else 1, half, len-1); each crash state is distinct and non-trivial (the process died mid-operation)", maxLen)
 	run.Coverage["samples"] = append(ks, as...)
 	run.Coverage["keys"] = kc
 	run.Coverage["crash_states"] = ac
